@@ -213,6 +213,7 @@ DimsNone   == {}
 DimsTiny   == {<<1, 2>>, <<2, 2>>}
 DimsSmall  == {<<1, 2>>, <<2, 2>>, <<2, 3>>}
 DimsMedium == {<<2, 2>>, <<2, 3>>, <<3, 2>>, <<3, 3>>}
+Dims3x3    == {<<2, 3>>, <<3, 3>>}
 
 Init == S = S0
 Next == \E o \in Candidates(S) : Enabled(S, o) /\ S' = Apply(S, o)
